@@ -36,13 +36,13 @@ def analyse_path(ctx, p, entry, variant, BAL, TOK):
         if e.kind != "write":
             continue
         if e.item == BAL:
-            d = cell_delta(e)
+            d = cell_delta(e, path=p)
             bal.append(d)
         elif e.item == TOK:
             if e.op == "remove":
                 problems.append(("TOKEN_INFO removed", e))
                 continue
-            d = cell_delta(e, field="total_supply")
+            d = cell_delta(e, field="total_supply", path=p)
             sup.append(d)
     return bal, sup, problems
 
@@ -164,7 +164,7 @@ def run(ctx):
                 if e.item == BAL:
                     ctx.ob("R01.6", "%s/BALANCES" % name, False, detail="%s writes BALANCES" % name, sites=[e.site])
                 elif e.item == TOK:
-                    d = cell_delta(e, field="total_supply") if e.op != "remove" else None
+                    d = cell_delta(e, field="total_supply", path=p) if e.op != "remove" else None
                     good = d is not None and d.nf is not None and not d.nf.atoms and not d.nf.const
                     ctx.ob("R01.6", "%s/TOKEN_INFO" % name, good, detail="%s changes total_supply" % name, sites=[e.site])
         ctx.ob("R01.6", "%s" % name, True, sample={"entry": fn, "writes_to_balances": 0})
